@@ -273,6 +273,8 @@ def rule_a(chk, wr, buf, is_file):
                     and a.slice.lower is not None:
                 requeue_tail.append((n, src(a.slice.lower)))
     closes = [n for n in g.nodes if n.kind == 'stmt' and any(r == 'self' for r, _c in pat.method_calls(n.ast, '_close'))]
+    # giving up the write side only (everything still queued is dropped, the read side ends the connection) also guarantees that nothing follows the lost payload
+    closes += [n for n in g.nodes if n.kind == 'stmt' and any(r == buf for r, _c in pat.method_calls(n.ast, 'clear'))]
     errors = [n for n in g.nodes if n.kind == 'stmt' and pat.fires(n.ast, 'error')]
     sends = [n for n in g.nodes if n.kind == 'stmt' and isinstance(n.ast, ast.Assign) and any(
         (call_name(c) or '').split('.')[-1] in ('send', 'write', 'fd_write') and c.args for c in calls_in(n.ast))]
@@ -336,7 +338,7 @@ def rule_a(chk, wr, buf, is_file):
             chk.ob('a', wr.ref, f'errno {errno} (fatal): the payload is not put back for ever', q is not None, loc(wr, h.ast),
                    discr=f'errno-class=FATAL-no-requeue:{errno}')
             p2 = Q.escapes(g, [h], lambda n: n in closes, avoid_edge=contradicts, exits=('exit',))
-            chk.ob('a', wr.ref, f'errno {errno} (fatal): the endpoint is closed, so that nothing is sent after the lost payload (what the OS accepted stays a prefix)',
+            chk.ob('a', wr.ref, f'errno {errno} (fatal): the endpoint is closed or its output abandoned (buffer cleared), so that nothing is sent after the lost payload',
                    p2 is None and bool(closes), loc(wr, h.ast), path=pat.path_lines(p2, h) if p2 else None, discr=f'errno-class=FATAL-closes:{errno}')
 
 
